@@ -219,6 +219,8 @@ def run_case(case):
             if resA == "input-unlabelled" or resB == "input-unlabelled":
                 return {"discard": "input-unlabelled"}
             for i, (a, b) in enumerate(zip(resA, resB)):
+                if a == "unmodelled" or b == "unmodelled":
+                    continue
                 if a is None or b is None:
                     if (a is None) != (b is None):
                         fails.append({"sig": "twin:settle-differs", "detail": {"step": i}})
@@ -234,7 +236,7 @@ def run_case(case):
                             fails.append({"sig": "twin:bundle-values-differ", "detail": {"name": n, "implicit": va, "renamed": vb, "valuation": case["vals"][i]}})
                     elif va[1] != vb[1]:
                         fails.append({"sig": "twin:value-differs", "detail": {"name": n, "implicit": va, "renamed": vb, "valuation": case["vals"][i]}})
-            varies = len({repr(r) for r in resA if r}) > 1
+            varies = len({repr(r) for r in resA if r and r != "unmodelled"}) > 1
         except Unmodelled:
             return {"discard": "unmodelled"}
         except sim.SimError as exc:
